@@ -1,50 +1,19 @@
 package c10
 
 import (
+	"os"
+	"runtime/pprof"
 	"testing"
-	"time"
-	"fmt"
 
-	"github.com/graphql-go/graphql"
-	"github.com/graphql-go/graphql/testutil"
-
-	"verif/internal/build"
 	"verif/internal/core"
-	"verif/internal/gen/schemagen"
-	"verif/internal/ref/introspect"
-	"verif/internal/ref/syntax"
 )
 
-func TestProf(t *testing.T) {
-	sr := core.NewRNG(5)
-	o := schemagen.DefaultOptions(sr)
-	o.Descs = true
-	o.WrapDepth = 4
-	m := schemagen.Gen(sr, o)
-	extend(sr, m)
-	u := introspect.New(m)
-	t0 := time.Now()
-	var env *build.Env
-	for i := 0; i < 20; i++ {
-		env, _ = build.Build(m, 1)
-	}
-	fmt.Println("build", time.Since(t0)/20, len(u.Names))
-	for _, q := range []string{testutil.IntrospectionQuery, deepQuery("", 10), lightQuery} {
-		t0 = time.Now()
-		var res *graphql.Result
-		for i := 0; i < 20; i++ {
-			res = graphql.Do(graphql.Params{Schema: env.Schema, RequestString: q})
-		}
-		fmt.Println("do", time.Since(t0)/20)
-		t0 = time.Now()
-		doc, _ := syntax.Parse([]byte(q))
-		var rep *introspect.Report
-		for i := 0; i < 20; i++ {
-			exp, err := introspect.Eval(u, doc, "", nil)
-			if err != nil { t.Fatal(err) }
-			got, _ := introspect.Normalize(res.Data)
-			rep = introspect.Compare(u, exp, got)
-		}
-		fmt.Println("ref", time.Since(t0)/20, len(rep.Mismatches), rep.Leaves)
-	}
+func TestProfChild(t *testing.T) {
+	dir := "/tmp/intro/prof"
+	os.MkdirAll(dir, 0o755)
+	f, _ := os.Create(dir + "/cpu.prof")
+	pprof.StartCPUProfile(f)
+	core.RunChild("C10", "quick", 1, 0, 8, "", dir)
+	pprof.StopCPUProfile()
+	f.Close()
 }
